@@ -15,15 +15,15 @@ package main
 
 import (
 	"fmt"
-	"runtime"
 	"os"
+	"runtime"
 	"runtime/debug"
 	"runtime/pprof"
-	"time"
 	"sort"
 	"strings"
 	"sync"
 	"sync/atomic"
+	"time"
 
 	"github.com/thought-machine/please/src/core"
 	"github.com/thought-machine/please/src/query"
@@ -671,7 +671,10 @@ func shrink(st *states, w witness, reason string) witness {
 }
 
 func classOf(w *witness, reason string) string {
-	cl := w.Mode + ":" + reason + "-missed:" + levelTag(w.Level)
+	cl := w.Mode + ":" + reason + "-missed"
+	if reason == "dependent" {
+		cl += ":" + levelTag(w.Level) // consumers and changed definitions are owed at every level
+	}
 	if w.Mode == "diffgraphs" {
 		ed := strings.SplitN(w.Edit, "(", 2)[0]
 		if strings.HasSuffix(ed, "-provides") {
